@@ -24,6 +24,15 @@ enum Answer {
     Rc0PlusForgedPrefix,
     /// success under the wrong message ID
     WrongId,
+    /// success under the wrong message ID, then the server hangs up
+    WrongIdThenClose,
+    /// an unsolicited notification (message ID 0) first, then the genuine success
+    NoticeThenRc0,
+    /// a response whose resultCode ENUMERATED has no content octets (malformed; a lenient
+    /// reader would take it for 0)
+    EmptyRc,
+    /// resultCode 2^32 (five content octets; truncated to 32 bits it would read 0)
+    Rc2Pow32,
 }
 
 #[derive(Clone, Copy, Debug, PartialEq, Eq)]
@@ -103,7 +112,22 @@ fn serve(mut tcp: std::net::TcpStream, c: Case, seen: Arc<Mutex<Seen>>) {
             Answer::Close => {
                 return;
             }
-            Answer::WrongId => ok(99, 0),
+            Answer::WrongId | Answer::WrongIdThenClose => ok(99, 0),
+            Answer::EmptyRc | Answer::Rc2Pow32 => {
+                let m = Msg { id: 1, op: Op::ExtResp(Res::new(0, "", ""), Some(STARTTLS_OID.to_vec()), None), controls: None };
+                let mut t = m.to_tlv();
+                if let ber::Body::Cons(top) = &mut t.body {
+                    if let ber::Body::Cons(op) = &mut top[1].body {
+                        op[0].body = ber::Body::Prim(if c.answer == Answer::EmptyRc { vec![] } else { vec![1, 0, 0, 0, 0] });
+                    }
+                }
+                ber::encode(&t)
+            }
+            Answer::NoticeThenRc0 => {
+                let mut v = Msg { id: 0, op: Op::ExtResp(Res::new(0, "", "for your information"), Some(b"1.3.6.1.4.1.99999.1".to_vec()), None), controls: None }.encode();
+                v.extend(ok(1, 0));
+                v
+            }
             Answer::Rc0PlusForgedFrame => {
                 let mut v = ok(1, 0);
                 v.extend(Msg { id: 2, op: Op::BindResp(Res::new(0, "", "INJECTED"), None), controls: None }.encode());
@@ -120,7 +144,12 @@ fn serve(mut tcp: std::net::TcpStream, c: Case, seen: Arc<Mutex<Seen>>) {
         if tcp.write_all(&reply).is_err() {
             return;
         }
-        let proceeds = matches!(c.answer, Answer::Rc(0) | Answer::Rc0PlusForgedFrame | Answer::Rc0PlusForgedPrefix);
+        if c.answer == Answer::WrongIdThenClose {
+            return;
+        }
+        // (after the two malformed / out-of-range result codes the server goes on to the handshake
+        // as well: a client that took them for success would end up with a working handle)
+        let proceeds = matches!(c.answer, Answer::Rc(0) | Answer::Rc0PlusForgedFrame | Answer::Rc0PlusForgedPrefix | Answer::NoticeThenRc0 | Answer::EmptyRc | Answer::Rc2Pow32);
         if !proceeds {
             // keep reading: anything the client still sends in cleartext is recorded
             let mut more = [0u8; 2048];
@@ -290,7 +319,7 @@ fn judge(rep: &Reporter, c: &Case) -> bool {
         }
         Ok(g) => g,
     };
-    let answer_ok = c.ldaps || matches!(c.answer, Answer::Rc(0) | Answer::Rc0PlusForgedFrame | Answer::Rc0PlusForgedPrefix);
+    let answer_ok = c.ldaps || matches!(c.answer, Answer::Rc(0) | Answer::Rc0PlusForgedFrame | Answer::Rc0PlusForgedPrefix | Answer::NoticeThenRc0);
     let should_succeed = answer_ok && c.hs == Handshake::Normal && (verification_off(c) || trusted_for(c.cert, c.host));
     let bad = |key: &str, why: String| {
         rep.violation(&format!("tls:{}", key), &format!("{:?}: {} (outcome {:?}, server saw {:?})", c, why, got, seen), replay.clone());
@@ -374,6 +403,9 @@ pub fn run(tier: Tier) -> i32 {
         Answer::Rc0PlusForgedFrame,
         Answer::Rc0PlusForgedPrefix,
         Answer::WrongId,
+        Answer::NoticeThenRc0,
+        Answer::EmptyRc,
+        Answer::Rc2Pow32,
     ];
     for ldaps in [true, false] {
         for host in ["localhost", "127.0.0.1"] {
@@ -408,6 +440,8 @@ pub fn run(tier: Tier) -> i32 {
     for no_verify in [false, true] {
         for (ldaps, answer, hs) in [
             (false, Answer::Close, Handshake::Normal),
+            (false, Answer::WrongIdThenClose, Handshake::Normal),
+            (false, Answer::NoticeThenRc0, Handshake::Normal),
             (false, Answer::Garbage, Handshake::Normal),
             (false, Answer::Rc(2), Handshake::Normal),
             (false, Answer::Rc(0), Handshake::Close),
@@ -479,11 +513,11 @@ pub fn run(tier: Tier) -> i32 {
             });
         }
     });
-    let succeed = cases.iter().chain(hostless.iter().take(hostless_run)).filter(|c| (c.ldaps || matches!(c.answer, Answer::Rc(0) | Answer::Rc0PlusForgedFrame | Answer::Rc0PlusForgedPrefix)) && c.hs == Handshake::Normal && (verification_off(c) || trusted_for(c.cert, c.host))).count();
+    let succeed = cases.iter().chain(hostless.iter().take(hostless_run)).filter(|c| (c.ldaps || matches!(c.answer, Answer::Rc(0) | Answer::Rc0PlusForgedFrame | Answer::Rc0PlusForgedPrefix | Answer::NoticeThenRc0)) && c.hs == Handshake::Normal && (verification_off(c) || trusted_for(c.cert, c.host))).count();
     let c = cov(vec![
         ("evaluations", json!(total)),
         ("distinct_nontrivial", json!(total)),
-        ("rule", json!("product of {ldaps, ldap+StartTLS} x URL host {localhost, 127.0.0.1} x no_tls_verify x certificate {CA-signed for localhost+127.0.0.1, CA-signed for localhost only, CA-signed for another name, self-signed} x StartTLS answer {rc 0, rc 1/2/52/53/80, garbage, close, rc 0 + complete forged cleartext BindResponse, rc 0 + forged frame prefix completed by the genuine in-TLS answer, success under a wrong message ID} x handshake {normal, close, garbage} (the wrong-ID answer with one certificate; thorough: every result code 1..=123, 4096, 65535); plus the failure behaviours without any connection timeout, ldaps with StartTLS also switched on, a caller-supplied connector (verifying / accepting anything) set before or after the other settings, and URLs without a host (localhost at 636/389, all four certificates x verification); every case runs the real LdapConnAsync::with_settings against a TLS server on 127.0.0.1 built with native-tls and the test PKI; each case is distinct")),
+        ("rule", json!("product of {ldaps, ldap+StartTLS} x URL host {localhost, 127.0.0.1} x no_tls_verify x certificate {CA-signed for localhost+127.0.0.1, CA-signed for localhost only, CA-signed for another name, self-signed} x StartTLS answer {rc 0, rc 1/2/52/53/80, garbage, close, rc 0 + complete forged cleartext BindResponse, rc 0 + forged frame prefix completed by the genuine in-TLS answer, success under a wrong message ID (also followed by a hang-up), an unsolicited notification before the genuine success, a result code without content octets, result code 2^32} x handshake {normal, close, garbage} (the wrong-ID answer with one certificate; thorough: every result code 1..=123, 4096, 65535); plus the failure behaviours without any connection timeout, ldaps with StartTLS also switched on, a caller-supplied connector (verifying / accepting anything) set before or after the other settings, and URLs without a host (localhost at 636/389, all four certificates x verification); every case runs the real LdapConnAsync::with_settings against a TLS server on 127.0.0.1 built with native-tls and the test PKI; each case is distinct")),
         ("hostless_url_cases_run", json!(hostless_run)),
         ("hostless_url_cases_skipped_port_not_bindable", json!(hostless_skipped)),
         ("cases_that_must_succeed", json!(succeed)),
